@@ -34,7 +34,7 @@ def _worker(job):
     for w in inputs:
         c = {"input": w}
         try:
-            with impl.time_limit(20):
+            with impl.time_limit(6):
                 forest = p.parse(w)
         except parglare.SyntaxError:
             c["status"] = "reject"
@@ -169,7 +169,7 @@ def gen_jobs(ctx):
             inputs = inputs[: (300 if quick else 3000)]
         jobs.append((name, text, inputs, cap))
     # big counts
-    for n in ([12, 25, 40] if quick else [12, 25, 40, 60]):
+    for n in ([12, 20, 28] if quick else [12, 25, 40, 60]):
         jobs.append(("ss_big%d" % n, "S: S S | 'a';", ["a" * n], cap))
     jobs.append(("expr_big", "E: E '+' E | E '*' E | 'n';",
                  ["n" + "+n*n" * k for k in ([2, 5] if quick else [2, 5, 8])], cap))
@@ -267,9 +267,12 @@ def check_case(ctx, gname, gtext, c, st_out, ix_out, stats):
 
 
 def run(ctx):
+    import time
+    t0 = time.time()
     jobs = gen_jobs(ctx)
     with mp.Pool(common.NPROC) as pool:
         results = pool.map(_worker, jobs, chunksize=1)
+    t_impl = time.time() - t0
     stats = {"grammars": 0, "grammar_errors": {}, "inputs": 0, "forests": 0, "rejects": 0,
              "errors": {}, "cyclic": 0, "ambiguous": 0, "max_solutions_digits": 0,
              "indices_compared": 0, "oob_compared": 0, "oracle": 0, "dup_forests": 0,
@@ -313,7 +316,9 @@ def run(ctx):
             mcases.append((1, c["nodes"]))
             mcases.append((2, [c["nodes"], allidx]))
             index.append((r, c))
+    t1 = time.time()
     outs = common.model_run(mcases)
+    stats["timing_s"] = {"impl": round(t_impl, 1), "model": round(time.time() - t1, 1)}
     nx, xok, xlog = common.coq_crosscheck("C03", mcases, outs, ctx.rng, sample=60 if ctx.quick() else 200)
     if not xok:
         ctx.violation("extraction cross-check failed: OCaml driver and vm_compute disagree",
@@ -359,7 +364,7 @@ def run(ctx):
                 "a case is non-trivial when the impl returned a forest with >1 tree; distinct by (grammar, input)",
         "samples": samples,
         "traces_validated_against_impl": stats["forests"],
-        "distribution": stats,
+        "distribution": dict(stats, timing_total=round(time.time() - t0, 1)),
         "crosscheck_vm_compute_cases": nx,
         "exhaustive": False,
     }
